@@ -63,6 +63,8 @@ func program(n, which int) string {
 		return fmt.Sprintf("package main\n\nfunc main(%s uint64) uint64 {\n\treturn %s\n}\n", args, and)
 	case 6: // AND levels of exactly 128 and 192 gates
 		return fmt.Sprintf("package main\n\nfunc main(%s uint192) (uint128, uint192) {\n\treturn uint128(a) & uint128(b), %s\n}\n", args, and)
+	case 7: // gates of every kind whose SECOND input is deeper in AND levels than the first (a == b*b), and the reverse
+		return fmt.Sprintf("package main\n\nfunc main(%s uint8) (bool, bool, bool, uint8) {\n\tx := b * b\n\ty := x * b\n\treturn a == x, x == a, y != a, (a ^ y) & %s\n}\n", args, names[n-1])
 	case 4: // more than 4096 AND gates in the early levels: the first triple batch is not enough
 		return fmt.Sprintf("package main\n\nfunc main(%s uint4500) uint4500 {\n\tx := a & b\n\ty := x | %s\n\treturn (y & a) ^ (x & b)\n}\n", args, names[n-1])
 	}
@@ -489,7 +491,7 @@ func work(ctx *runner.Ctx) {
 		maxN = 5
 	}
 	for n := 2; n <= maxN; n++ {
-		for prog := 0; prog < 7; prog++ {
+		for prog := 0; prog < 8; prog++ {
 			if prog == 4 && (n > 2 || quick) && !(n == 2) {
 				continue
 			}
@@ -518,7 +520,13 @@ func work(ctx *runner.Ctx) {
 					orders = append(orders, rev)
 				}
 				for _, o := range orders {
-					data = append(data, cs{N: n, Prog: prog, Inputs: inputsFor(c, n, variant), Triples: reqs, Order: o, P: 0, F: 1, Seed: seed + uint64(variant)})
+					in := inputsFor(c, n, variant)
+					if prog == 7 {
+						// a == b*b holds: the equality is an AND over XNOR gates, a stale input shows as "false"
+						b := []int{13, 255, 16}[variant]
+						in[0], in[1] = fmt.Sprint(b*b%256), fmt.Sprint(b)
+					}
+					data = append(data, cs{N: n, Prog: prog, Inputs: in, Triples: reqs, Order: o, P: 0, F: 1, Seed: seed + uint64(variant)})
 				}
 				// a second Run on the same Network after the first one (same circuit, other inputs)
 				if variant == 0 && (!quick || prog <= 1) {
